@@ -281,7 +281,13 @@ func contentCheck(bs []eth.Block, chain *simnode.Chain, flt *glf.Filter) string 
 				if len(t.TraceActions) != len(ct.Traces) {
 					return fmt.Sprintf("block %d tx %d: %d trace actions, the node has %d", n, uint64(t.Idx), len(t.TraceActions), len(ct.Traces))
 				}
+				seenIdx := map[uint64]bool{}
 				for _, a := range t.TraceActions {
+					// the actions of one transaction are told apart by their index (it is part of the row key)
+					if seenIdx[uint64(a.Idx)] {
+						return fmt.Sprintf("block %d tx %d: two trace actions carry the index %d", n, uint64(t.Idx), uint64(a.Idx))
+					}
+					seenIdx[uint64(a.Idx)] = true
 					found := false
 					for _, ca := range ct.Traces {
 						if bytes.Equal(ca.From, a.From) && bytes.Equal(ca.To, a.To) && ca.Value.Eq(&a.Value) {
@@ -380,13 +386,22 @@ var corruptions = []corruption{
 			return false
 		}
 		out := make([]any, len(arr))
-		if r.Bool() {
+		switch r.Intn(3) {
+		case 0:
 			for k := range arr {
 				out[len(arr)-1-k] = arr[k]
 			}
-		} else {
+		case 1:
 			copy(out, arr[1:])
 			out[len(arr)-1] = arr[0]
+		default: // interleaved: the items of one transaction are no longer next to each other
+			out = out[:0]
+			for k := 0; k < len(arr); k += 2 {
+				out = append(out, arr[k])
+			}
+			for k := 1; k < len(arr); k += 2 {
+				out = append(out, arr[k])
+			}
 		}
 		ex.Responses[i]["result"] = out
 		return true
